@@ -8,7 +8,7 @@ func snapshotConstructors(r *Report, in introducers) []*FuncInfo {
 
 func propC05(r *Report, tier string) {
 	r.Explanation = "Structural necessary conditions of 'merging/persisting never change results' (doc-number remapping and layout bookkeeping only): (a) K14 the segments/drops/snapshots handed to MergeUsing are extended pairwise from one SegmentSnapshot and the merge history pairs newDocNums[j] with snapshots[j] keyed by that segment's id; (b) K14 every constructor of a published snapshot pairs each .segment append with an .offsets append and advances the running offset by the segment's FULL Count(); (c) K5-dep the merge introducer's exclusion bitmap of a merged segment depends on the current root's deletions, the merge-time deletions and the old->new map, unconditionally on the merge-time snapshot having deletions, including inputs dropped from the root meanwhile; (d) the persist introducer carries deleted/stats/cachedDocs of each replaced segment; (e) carried segments keep their own id/segment/deleted. (e) K14 the unadorned disjunction builds each per-segment result from all of its input collections (1-hit doc numbers and bitmaps) unless the ignored one is provably empty; (f) K6 nil ActualBitmap() means 'skip', or 'empty' only after DocNum1Hit() was excluded."
-	r.NotCovered = "equality of hits, order, scores, facets, highlights across layouts; the merge planner's 'each segment in at most one task'; zapx merge correctness"
+	r.NotCovered = "equality of hits, order, scores, facets, highlights across layouts; zapx merge correctness"
 	in := findIntroducers(r.P)
 	ruleMergeUsingAlignment(r, "K14-merge-input-alignment")
 	ruleFlushableAlignment(r, "K14-merge-input-alignment")
@@ -16,6 +16,8 @@ func propC05(r *Report, tier string) {
 	ruleOffsetsAlignment(r, "K14-offsets-alignment", snapshotConstructors(r, in))
 	ruleMergeIntroducerRemap(r, in, "K5dep-merge-remap")
 	rulePersistIntroducerCarry(r, in, "K9b-persist-carry")
+	ruleRosterRemovedByMembership(r, "K8-merge-plan-roster-removed")
+	ruleExclusionAtReadSites(r, "K8-exclusion-at-read-sites")
 	ruleUnionConsumesAllCollections(r, "K14-union-consumes-all-inputs", "index/scorch.(*OptimizeTFRDisjunctionUnadorned).Finish", "IndexSnapshotTermFieldReader", "iterators")
 	ruleNilActualBitmapIsNotEmpty(r, "K6-nil-actual-bitmap-is-not-empty")
 	r.Floor("K14-merge-input-alignment", 6)
